@@ -1,0 +1,6 @@
+//go:build !verif
+
+package wal
+
+// verifCrashPoint is a no-op unless built with -tags verif (see verif_crash.go).
+func verifCrashPoint(name string, args ...uint64) {}
